@@ -117,7 +117,10 @@ def build_rep(x_cmds):
         entry, exit_ = x_cmds[0], x_cmds[-1]
         reps = max(entry["vcount"], 1)
         body = x_cmds[1:-1]
-        typed = body[:len(body) // reps] if reps > 1 and len(body) % reps == 0 else body
+        if entry["kind"] == "lineBreak" and reps > 1 and (len(body) - (reps - 1)) % reps == 0:
+            typed = body[:(len(body) - (reps - 1)) // reps]      # every repetition after the first opens its own line
+        else:
+            typed = body[:len(body) // reps] if reps > 1 and len(body) % reps == 0 else body
         return {"mode": [entry] + typed + [exit_], "reps": reps}
     if len(x_cmds) == 1 and x_cmds[0]["repeatable"]:
         return {"single": x_cmds[0]}
